@@ -51,21 +51,23 @@ class _Captured(Exception):
         self.payload = args
 
 
-def _capture(A, name, thunk):
-    """run thunk(); return the positional arguments of the first call the traced package makes to
-    np.linalg.<name> (LAPACK routines cannot run on symbols; their *input* is what the model is about)"""
+def _capture(A, names, thunk):
+    """run thunk(); return the positional arguments of the first call the traced package makes to one of
+    np.linalg.<names> (LAPACK routines cannot run on symbols; their *input* is what the model is about)"""
     la = A.filters.davenport.np.linalg          # the proxy module's linalg object, shared by the traced package
     def hook(*a, **k):
         raise _Captured(a)
-    la.__dict__[name] = hook
+    for n in names:
+        la.__dict__[n] = hook
     try:
         thunk()
     except _Captured as c:
         return c.payload
     finally:
-        la.__dict__.pop(name, None)
+        for n in names:
+            la.__dict__.pop(n, None)
     from pysym.sym import Unsupported
-    raise Unsupported(f"np.linalg.{name} was not reached")
+    raise Unsupported(f"np.linalg.{'/'.join(names)} was not reached")
 
 
 def _not_converged(atom, value):
@@ -138,19 +140,19 @@ def targets():
         a, m, _, mr = _sym_meas(v, UP, _ned)
         e = F(A).Davenport(magnetic_dip=60.0, gravity=1.0)
         e.m_q = mr
-        return _capture(A, 'eig', lambda: e.estimate(a, m))[0]
+        return _capture(A, ('eig', 'eigh'), lambda: e.estimate(a, m))[0]
 
     def flae_W(A, v):
         a, m, g, mr = _sym_meas(v, UP, _ned_neg)
         e = F(A).FLAE(magnetic_dip=60.0, weights=np.array([0.5, 0.5]))
         e.ref = np.vstack((np.array(g), np.array(mr)))
-        return _capture(A, 'eig', lambda: e.estimate(a, m, method='eig'))[0]
+        return _capture(A, ('eig', 'eigh'), lambda: e.estimate(a, m, method='eig'))[0]
 
     def flae_newton_N(A, v):
         a, m, g, mr = _sym_meas(v, UP, _ned_neg)
         e = F(A).FLAE(magnetic_dip=60.0, weights=np.array([0.5, 0.5]))
         e.ref = np.vstack((np.array(g), np.array(mr)))
-        return _capture(A, 'inv', lambda: e.estimate(a, m, method='newton'))[0]
+        return _capture(A, ('inv',), lambda: e.estimate(a, m, method='newton'))[0]
 
     return [
         mk('triad_NED', triad(_ned, 'rotmat'), "TRIAD(v1=(0,0,1), v2=(cd,0,sd)).estimate(sa R^T v1, sm R^T v2)"),
